@@ -31,7 +31,10 @@ def strategy_(draw):
     sp["objective"] = [draw(c05.objective_term(sp)) for _ in range(draw(st.integers(1, 2)))]
     sp["constraints"] = [draw(c04.constraint(sp, allow_roots=False)) for _ in range(draw(st.integers(0, 2)))]
     which = draw(st.sampled_from(["T", "t0", "both", "T", "Tvar"]))
-    return {"spec": sp, "free": which, "guess_T": draw(st.sampled_from([0.5, 1.0, 2.5])), "guess_t0": draw(st.sampled_from([0.0, 0.25, -1.5])), "rng": draw(st.integers(0, 2**31 - 1))}
+    case = {"spec": sp, "free": which, "guess_T": draw(st.sampled_from([0.5, 1.0, 2.5])), "guess_t0": draw(st.sampled_from([0.0, 0.25, -1.5])), "rng": draw(st.integers(0, 2**31 - 1))}
+    if draw(st.integers(0, 3)) == 0:
+        sp["time_scale"] = draw(st.sampled_from([10.0, 0.1]))     # Ocp(..., scale=s): a hint, the problem and its starting point stay the same
+    return case
 
 
 def strategy(tier):
